@@ -2,7 +2,7 @@
 //! arbitrary header, re-export with the real `to_be_bytes`, compare with the input bytes.
 //! Data records use the exact unsigned kernel model (d9.rs); everything else is real.
 use crate::common::*;
-use crate::d9::unsigned_kernel_model;
+use crate::km::unsigned_kernel_model;
 use netflow_parser::variable_versions::{ipfix, v9};
 use netflow_parser::variable_versions::ipfix_lookup::IPFixField;
 use netflow_parser::variable_versions::v9_lookup::{ScopeFieldType, V9Field};
